@@ -6,8 +6,9 @@ import Dashu.Model.Cross.Num
   (`Oracle`); the theorems of `Props/C14` hold for every oracle satisfying the enclosure
   hypothesis.  Exact big-integer primitives (`Ord for UBig/IBig`, `shl_digits`, `<<`, `*`,
   `UBig::pow`) are used at their value (`compare`, `* B^n`, `* 2^n`): they are refined by C01/C05.
-  Machine `isize` arithmetic is modelled in `Int` (no overflow) — see the finding on
-  `B.bit_len() as isize * self.exponent`.
+  The bit-length estimates are computed in `i128` by the code (no overflow possible): modelled in `Int`.
+  The code mirrored here is /repo AFTER the C14 fix commits (8a8c152 … d12bb0c); the code before
+  them is kept in `Model/Cross/Pre.lean` only to state what was wrong.
 -/
 namespace Dashu.Model.Cross
 
@@ -81,6 +82,7 @@ def ubigNumOrdFloat (t : FloatTy) (x : Nat) (d : Decoded) : Option Ordering :=
   | .fin man exp =>
     if man = 0 then (if x = 0 then some .eq else some .gt)          -- step0
     else if man < 0 then some .gt                                    -- step1
+    else if x = 0 then some .lt                                      -- step2 (`|| self.is_zero()`)
     else
       let selfBits : Int := bitLen x                                 -- step3
       if selfBits > (t.mantDigits + t.maxExp : Nat) then some .gt
@@ -92,21 +94,22 @@ def ubigNumOrdFloat (t : FloatTy) (x : Nat) (d : Decoded) : Option Ordering :=
         else if exp ≥ 0 then some (compare (x : Int) ((man.natAbs : Int) * 2 ^ exp.toNat))   -- step5
         else some (compare ((x : Int) * 2 ^ (-exp).toNat) (man.natAbs : Int))
 
-/-- `impl_num_ord_ibig_with_float` : `NumOrd<f32/f64> for IBig` (as written, including
-    `Some(-sign * Ordering::Less)` in step2) -/
+/-- `impl_num_ord_ibig_with_float` : `NumOrd<f32/f64> for IBig` -/
 def ibigNumOrdFloat (t : FloatTy) (x : Int) (d : Decoded) : Option Ordering :=
   match d with
   | .nan => none
   | .inf neg =>
     match signMatch (Sign.ofInt x) (if neg then .neg else .pos) with
     | .inr o => some o
-    | .inl sign => some (sign.flip.app .lt)                          -- step2
+    | .inl sign => some (sign.app .lt)                               -- step2
   | .fin man exp =>
     if man = 0 then (if x = 0 then some .eq else some ((Sign.ofInt x).app .gt))
     else
       match signMatch (Sign.ofInt x) (Sign.ofInt man) with
       | .inr o => some o
       | .inl sign =>
+        if x = 0 then some .lt                                       -- zero against a positive float
+        else
         let selfBits : Int := bitLen x.natAbs
         if selfBits > (t.mantDigits + t.maxExp : Nat) then some (sign.app .gt)
         else
@@ -119,7 +122,7 @@ def ibigNumOrdFloat (t : FloatTy) (x : Int) (d : Decoded) : Option Ordering :=
 
 -- ============================================================ float/src/cmp.rs
 
-/-- `repr_cmp_ubig::<B, ABS>` (as written: the exact step compares the *signed* significand) -/
+/-- `repr_cmp_ubig::<B, ABS>` -/
 def floatReprCmpUbig (o : Oracle) (abs : Bool) (B : Nat) (s e : Int) (r : Nat) : Ordering :=
   if fIsInf s e then (if e > 0 || abs then .gt else .lt)              -- case 1
   else if !abs && Sign.ofInt s == .neg then .lt                        -- case 2
@@ -128,10 +131,14 @@ def floatReprCmpUbig (o : Oracle) (abs : Bool) (B : Nat) (s e : Int) (r : Nat) :
     let rb := o.nat r
     if EB.lt rb.2 l.1 then .gt
     else if EB.lt l.2 rb.1 then .lt
-    else if e < 0 then compare s (shlDigits B (r : Int) (-e).toNat)    -- case 4
-    else compare (shlDigits B s e.toNat) (r : Int)
+    else if e < 0 then                                                 -- case 4
+      (if abs then absCmpInt s (shlDigits B (r : Int) (-e).toNat)
+       else compare s (shlDigits B (r : Int) (-e).toNat))
+    else
+      (if abs then absCmpInt (shlDigits B s e.toNat) (r : Int)
+       else compare (shlDigits B s e.toNat) (r : Int))
 
-/-- `repr_cmp_ibig::<B, ABS>` (as written: signed comparison in the exact step also for ABS) -/
+/-- `repr_cmp_ibig::<B, ABS>` -/
 def floatReprCmpIbig (o : Oracle) (abs : Bool) (B : Nat) (s e : Int) (r : Int) : Ordering :=
   if fIsInf s e then (if e > 0 || abs then .gt else .lt)
   else
@@ -142,8 +149,10 @@ def floatReprCmpIbig (o : Oracle) (abs : Bool) (B : Nat) (s e : Int) (r : Int) :
       let rb := o.nat r.natAbs
       if EB.lt rb.2 l.1 then sign.app .gt
       else if EB.lt l.2 rb.1 then sign.app .lt
-      else if e < 0 then compare s (shlDigits B r (-e).toNat)
-      else compare (shlDigits B s e.toNat) r
+      else if e < 0 then
+        (if abs then absCmpInt s (shlDigits B r (-e).toNat) else compare s (shlDigits B r (-e).toNat))
+      else
+        (if abs then absCmpInt (shlDigits B s e.toNat) r else compare (shlDigits B s e.toNat) r)
 
 /-- `repr_cmp_same_base::<B, ABS>(lhs, rhs, precision)` -/
 def reprCmpSameBase (o : Oracle) (abs : Bool) (B : Nat) (ls le rs re : Int)
@@ -215,7 +224,7 @@ def reprNumCmp (o : Oracle) (B1 : Nat) (s1 e1 : Int) (B2 : Nat) (s2 e2 : Int) : 
         let rhs2 := if e2 < 0 then rhs1 else shlDigits B2 rhs1 e2.toNat
         compare lhs2 rhs2
 
-/-- `impl_num_ord_with_float` : `NumOrd<f32/f64> for Repr<B>` (isize arithmetic in `Int`) -/
+/-- `impl_num_ord_with_float` : `NumOrd<f32/f64> for Repr<B>` (log₂ estimates in i128: no overflow) -/
 def reprNumOrdFloat (t : FloatTy) (B : Nat) (s e : Int) (d : Decoded) : Option Ordering :=
   match d with
   | .nan => none
@@ -231,6 +240,7 @@ def reprNumOrdFloat (t : FloatTy) (B : Nat) (s e : Int) (d : Decoded) : Option O
       | .inr ord => some ord
       | .inl sign =>
         if fIsInf s e then some (sign.app .gt)                         -- step2
+        else if fIsZero s e then some .lt                              -- zero against a positive float
         else
           -- step3
           let selfSignifLog2 : Int := bitLen s.natAbs
@@ -251,11 +261,8 @@ def reprNumOrdFloat (t : FloatTy) (B : Nat) (s e : Int) (d : Decoded) : Option O
               let rhs2 := if exp < 0 then rhs1 else rhs1 * 2 ^ exp.toNat
               some (compare lhs2 rhs2)
 
-/-- base/src/sign.rs `impl AbsOrd for iN`: `self.abs().cmp(&rhs.abs())`; `abs()` of `iN::MIN`
-    overflows (`none`; a debug build panics, a release build wraps to `MIN`) -/
-def primIntAbsCmp (t : PrimInt) (a b : Int) : Option Ordering :=
-  let mn : Int := -(2 ^ (t.bits - 1) : Int)
-  if a = mn ∨ b = mn then none else some (compare a.natAbs b.natAbs)
+/-- base/src/sign.rs `impl AbsOrd for iN`: `self.unsigned_abs().cmp(&rhs.unsigned_abs())` -/
+def primIntAbsCmp (a b : Int) : Ordering := compare a.natAbs b.natAbs
 
 -- ============================================================ rational/src/cmp.rs
 
@@ -343,6 +350,7 @@ def ratNumOrdFloat (t : FloatTy) (n : Int) (d : Nat) (dec : Decoded) : Option Or
       match signMatch (Sign.ofInt n) (Sign.ofInt man) with
       | .inr ord => some ord
       | .inl sign =>
+        if n = 0 then some .lt else                                    -- zero against a positive float
         let selfLog2 : Int := (bitLen n.natAbs : Int) - bitLen d
         let lb := selfLog2 - 1
         let ub := selfLog2 + 1
